@@ -258,7 +258,8 @@ Servable == IF "ArtefactFetchable" \in Defects THEN RegKinds ELSE RegKinds \ {"c
 
 HasNul(s) == T!Contains(s, NUL)
 IsSecure(s) ==                                 \* handlers/base.py isrequestsecure
-    \A bad \in {"./", "..", "//", ".\\", "\\\\", NUL} : ~T!Contains(s, bad)
+    /\ \A bad \in {"./", "..", "//", ".\\", "\\\\", NUL} : ~T!Contains(s, bad)
+    /\ ~T!EndsWith(s, "/.")
 
 VSplit(s) ==                                   \* handlers/virtual.py: first "?" if any, else first "|"
     LET q == T!Find(s, "?") b == T!Find(s, "|") i == IF q # 0 THEN q ELSE b IN
